@@ -6,10 +6,12 @@ FROM_RESIDUAL = 'core::ops::try_trait::FromResidual::from_residual'
 
 # combinators through which the error state of a Result/Option is carried to the destination
 CARRY = {
-    'map_err', 'map', 'and', 'and_then', 'or_else', 'or', 'inspect_err', 'inspect', 'copied',
+    'map_err', 'map', 'and', 'and_then', 'inspect_err', 'inspect', 'copied',
     'cloned', 'as_ref', 'as_mut', 'ok_or', 'ok_or_else', 'ok', 'transpose', 'flatten',
-    'map_or_else_carry', 'into', 'from', 'as_deref', 'zip', 'filter', 'xor',
+    'map_or_else_carry', 'into', 'from', 'as_deref', 'zip', 'filter',
 }
+# a.or(b) / a.or_else(f) / a.xor(b): the receiver's failure is replaced by the alternative
+REPLACE = {'or', 'or_else', 'xor'}
 UNWRAP = {'unwrap', 'expect', 'unwrap_unchecked', 'unwrap_err', 'expect_err'}
 SWALLOW = {'unwrap_or', 'unwrap_or_else', 'unwrap_or_default', 'map_or', 'map_or_else', 'err',
            'iter', 'into_iter', 'is_some_and', 'is_ok_and', 'is_none_or', 'unwrap_or_else'}
@@ -36,10 +38,31 @@ def returns_result(fn):
     return ty_is_result(out) or ty_is_option(out)
 
 
+def returns_bool(fn):
+    out = fn.d.get('output') or (fn.locals[0]['ty'] if fn.locals else '')
+    return out == 'bool'
+
+
 def exit_blocks(fn):
     """(accept_blocks, reject_blocks): blocks that assign the return place an accepting /
     rejecting value. For functions that do not return Result every return is accepting."""
     acc, rej = set(), set()
+    if returns_bool(fn):
+        # a predicate: returning the constant false is its rejecting exit
+        for i, b in enumerate(fn.blocks):
+            if b.get('cleanup'):
+                continue
+            for s in b['stmts']:
+                if s['k'] == 'assign' and s['place']['l'] == 0 and not s['place']['p']:
+                    c = s['rv'].get('a', {}).get('c') if s['rv']['k'] == 'use' else None
+                    if c is not None and c.get('ty') == 'bool' and c.get('val') == '0':
+                        rej.add(i)
+                    else:
+                        acc.add(i)
+            t = b['term']
+            if t['k'] == 'call' and t.get('dest') and t['dest']['l'] == 0 and not t['dest']['p']:
+                acc.add(i)
+        return acc, rej
     if not returns_result(fn):
         return set(fn.return_blocks()), set()
     for i, b in enumerate(fn.blocks):
@@ -66,7 +89,10 @@ def exit_blocks(fn):
 
 def reach_accept(fn):
     """set of blocks from which an accepting assignment of the return place is reachable"""
-    acc, _ = exit_blocks(fn)
+    acc, rej = exit_blocks(fn)
+    if returns_bool(fn):
+        # paths through a `false` assignment are cut there
+        return fn.can_reach(acc, removed=rej - acc)
     return fn.can_reach(acc)
 
 
@@ -166,6 +192,13 @@ def result_uses(fn, start_local, ra=None):
                 work.append((d['l'], 'bool_err'))
             elif stdish and name in SWALLOW:
                 uses.append(ResUse('swallowed', name, bi, t['line']))
+            elif stdish and name in REPLACE:
+                if first:
+                    uses.append(ResUse('swallowed', name + ' (the failure of the receiver is replaced by the alternative)', bi, t['line']))
+                elif d['p']:
+                    uses.append(ResUse('escaped', 'stored into a field', bi, t['line']))
+                else:
+                    work.append((d['l'], 'res'))
             elif stdish and name in CARRY:
                 if d['p']:
                     uses.append(ResUse('escaped', 'stored into a field', bi, t['line']))
@@ -223,7 +256,7 @@ def result_discipline(fn, want_ty=ty_is_result):
         # combinator/`?` plumbing is followed from the originating call, not analysed on its own
         name = callee_name(t)
         if (path.startswith('core::result::Result') or path.startswith('core::option::Option')) \
-                and name in CARRY and t.get('args'):
+                and name in (CARRY | REPLACE) and t.get('args'):
             a0 = op_place(t['args'][0])
             if a0 is not None and not a0['p'] and (ty_is_result(fn.local_ty(a0['l'])) or
                                                    fn.local_ty(a0['l']).startswith('core::ops::control_flow')
